@@ -219,6 +219,24 @@ example : ∃ o : Bytes, o.length = 6 ∧ [104, 101].take 1 ++ o.drop 1 ≠ o :=
     (by decide) (by decide) (by decide) (by decide) (by decide)
   ⟨o, h1, by simpa using h5⟩
 
+/-- **A crash state is a byte-wise mixture**: every byte of it is the byte the completed save
+would have put there, the byte the earlier file had there, or a zero (hole).  So the torn values
+of `TornNew`/`TornOld` are exactly "mixtures of old and new bytes". -/
+theorem crash_bytewise (S : Nat) (old : Bytes) (t : Int) (d c : Bytes) (hc : Crash S old t d c)
+    (q : Nat) (hq : q < c.length) :
+    c[q]? = (saveComplete old t d)[q]? ∨ c[q]? = old[q]? ∨ c[q]? = some 0 := by
+  obtain ⟨k, j, T, hk, rfl⟩ := hc
+  unfold crashState sectorMix at hq ⊢
+  rw [List.length_take] at hq
+  rw [List.getElem?_take_of_lt (by omega)]
+  rcases mixAux_getElem? S T 0 old (logical old (saveWrites t d) k j) q (by omega) with h | h | h
+  · rw [h]
+    rcases logical_getElem? old t d k j hk q with h2 | h2
+    · left; exact h2
+    · right; left; exact h2
+  · right; left; exact h
+  · right; right; exact h
+
 /-- Crash states (and complete saves) are again files a later save can start from, so the
 theorems above compose along histories of saves and crashes. -/
 theorem crash_wellformed (S : Nat) (old : Bytes) (t : Int) (d c : Bytes) (hS : 16 ≤ S)
@@ -358,6 +376,38 @@ theorem save_then_load (now : Int) (sid : Bytes) (t : Int) (d : Bytes) (dir : Di
   have : save sid t d dir sid = some (saveComplete ((dir sid).getD []) t d) := by simp [save, Dir.put]
   rw [this]
   simp only [no_crash_load_new now _ t d ht hd hnow]
+
+/-- An operation called with session id `s` touches no file but `s`'s; gc touches only files whose
+name is exactly 32 hex digits.  (That a malformed sid never reaches the storage is C06's business.) -/
+theorem only_sid_named_files_touched (w : World) (op : Op) (n : Bytes) :
+    (∀ s, opTarget op = some s → n ≠ s → (step w op).dir n = w.dir n) ∧
+    (opTarget op = none → sidName n = false → (step w op).dir n = w.dir n) := by
+  cases op with
+  | setClock _ => simp [step, opTarget]
+  | gc =>
+    simp only [opTarget, step, reduceCtorEq, false_implies, implies_true, true_and]
+    intro _ hn
+    exact (gc_touches_only_sid_names w.now w.dir).1 n hn
+  | load s =>
+    simp only [opTarget, step, Option.some.injEq, reduceCtorEq, false_implies, and_true]
+    intro s' hs hn
+    subst hs
+    exact (load_keeps_good_files w.now s w.dir).2 n hn
+  | remove s =>
+    simp only [opTarget, step, Option.some.injEq, reduceCtorEq, false_implies, and_true]
+    intro s' hs hn
+    subst hs
+    simp [remove, Dir.erase, hn]
+  | save s t d =>
+    simp only [opTarget, step, Option.some.injEq, reduceCtorEq, false_implies, and_true]
+    intro s' hs hn
+    subst hs
+    simp [save, Dir.put, hn]
+  | crashSave S s t d k j T =>
+    simp only [opTarget, step, Option.some.injEq, reduceCtorEq, false_implies, and_true]
+    intro s' hs hn
+    subst hs
+    simp [crashSave, Dir.put, hn]
 
 /-! ## histories -/
 
